@@ -76,6 +76,14 @@ def fault_snippets(w):
         'internal-label-predeclared': ([';', 'ns _ {', 'wflip_area_start_0:', '}', ';', 'segment 16*w', ';'], 'only', ['wflip_area_start_0']),
         'huge-literal': ([';' + '9' * 5000], 'end', ['literal', 'number', 'digit', 'too', 'long', 'big', 'fit', 'bits', 'range']),
     }
+    # overlap geometries: the later segment encloses / starts with / ends inside / lies in the reserved tail of the earlier one
+    on = ['overlap', 'segment']
+    f['overlap:later-encloses-earlier'] = (['segment 1024*w', ';', 'segment 512*w', ';', 'reserve 1024*w'], 'end', on)
+    f['overlap:later-encloses-earlier-by-ops'] = (['segment 1024*w', ';', 'segment 1020*w', 'rep(6, zz_i) zz_i;'], 'end', on)
+    f['overlap:same-start'] = (['segment 1024*w', ';', 'segment 1024*w', ';'], 'end', on)
+    f['overlap:later-ends-inside'] = (['segment 1024*w', ';', ';', ';', 'segment 1022*w', ';', ';'], 'end', on)
+    f['overlap:later-in-reserved-tail'] = (['segment 1024*w', ';', 'reserve 64*w', 'segment 1040*w', ';'], 'end', on)
+    f['overlap:reserved-tail-over-earlier'] = (['segment 1024*w', ';', 'segment 1000*w', ';', 'reserve 64*w'], 'end', on)
     # characters that python's str.split() / str.strip() treat as blank but the lexer does not, as the last thing in the file
     for ch in ('\x0b', '\x0c', '\x1c', '\x1f'):
         f['bad-char-%02x-last' % ord(ch)] = ([ch], 'eof', ['lexing error'])
